@@ -212,8 +212,28 @@ HdrPos(b, w, what) ==
 (* adversarial candidates: integers and a digest constructed so that EVERY test of 32918.2 7.1 passes except one - the    *)
 (* range of r (r = 0, r = n), the range of s (s = 0, s = n), or t = (r + s) mod n # 0 - by solving the final equation for  *)
 (* the digest: e = r - x1, (x1, y1) = [s]G + [t]Q.  A verifier that lost that one test accepts them.                        *)
-AdvKinds == {"t0", "r0", "rn", "s0", "sn"}
+AdvKinds == {"t0", "r0", "rn", "s0", "sn", "xbig"}
+(* "xbig": a VALID signature whose point (x1, y1) = [s]G + [t]Q has its abscissa in [n, p-1], so that R = (e + x1) mod n    *)
+(* needs x1 reduced.  Honest signatures meet this with probability 2^-128; here R is chosen first (the first points at or     *)
+(* above x = n, the last one below p) and the public key is solved for: Q = [t^-1](R - [s]G), r = t - s, e = r - x1 mod n.     *)
+(* Every test of 7.1 passes, so the standard accepts; a verifier that does not reduce x1 refuses.                             *)
+RECURSIVE ScanUp(_, _)
+ScanUp(x, k) == LET dr == S!Ec!Decompress(x, 0)
+                IN IF dr.ok THEN (IF k = 1 THEN dr.pt ELSE ScanUp(BN!Add(x, <<1>>), k - 1)) ELSE ScanUp(BN!Add(x, <<1>>), k)
+RECURSIVE ScanDown(_)
+ScanDown(x) == LET dr == S!Ec!Decompress(x, 1) IN IF dr.ok THEN dr.pt ELSE ScanDown(BN!Sub(x, <<1>>))
+XBigCand(c, kind, aux) ==
+  LET j == kind[3]
+      R == IF j = 3 THEN ScanDown(BN!Sub(S!P, <<1>>)) ELSE ScanUp(S!N, j)
+      s == IF j = 1 THEN <<1>> ELSE IF j = 2 THEN <<2>> ELSE aux.s
+      t0 == aux.r
+      t == IF t0 = s THEN BN!AddMod(t0, <<1>>, S!N) ELSE t0
+      r == BN!SubMod(t, s, S!N)
+      Q == S!Ec!Mul(BN!InvMod(t, S!N), S!Ec!Add(R, S!Ec!Neg(S!Ec!Mul(s, S!G))))
+      e == S!F32(BN!SubMod(r, BN!Mod(R[1], S!N), S!N))
+  IN [WithInts(c, kind, FALSE, r, FALSE, s) EXCEPT !.gm = FALSE, !.e = e, !.pub = Q]
 AdvCand(c, kind, aux) ==
+  IF kind[2] = "xbig" THEN XBigCand(c, kind, aux) ELSE
   LET nm == kind[2]
       v == IF kind[3] = 1 THEN <<1>> ELSE IF kind[3] = 2 THEN <<2>> ELSE aux.s          \* in 1..n-1
       r == IF nm = "t0" THEN BN!Sub(S!N, v) ELSE IF nm = "r0" THEN <<>> ELSE IF nm = "rn" THEN S!N ELSE v
@@ -225,7 +245,8 @@ AdvCand(c, kind, aux) ==
 
 CtxKinds == {"otherkey", "negpub", "othermsg", "msgflip", "msgappend", "msgtrunc", "otheruid", "uid_explicit", "digflip"}
 (* kinds after which the candidate is still the signer's own signature on the same (key, uid, msg) *)
-Benign(kind) == kind[1] = "none" \/ (kind[1] = "ctx" /\ kind[2] = "uid_explicit")
+(* ... or that is a valid signature by construction under the key it carries ("xbig")            *)
+Benign(kind) == kind[1] = "none" \/ (kind[1] = "ctx" /\ kind[2] = "uid_explicit") \/ (kind[1] = "adv" /\ kind[2] = "xbig")
 
 (* Mutate the honest candidate.  kind = <<class, name, i, j>>; aux supplies foreign material          *)
 (* [pub, uid, msg, r, s] for the kinds that need it.                                                  *)
